@@ -61,14 +61,28 @@ def pos_rebase(db, ctx):
     done = False
     for n, ps in walk(f.hir):
         if n.get("k") == "Assign" and peel(n["l"]).get("k") == "Field" and peel(n["l"]).get("name") == "pos_id":
-            txt = render(n["r"])
-            deps = all(s in txt for s in ("pos_id", "num_system_pos", "pos_offsets"))
-            shape = "- self.num_system_pos" in txt and "+ self.pos_offsets[" in txt
+            from ..db import walk_x, deref_let
+            txt = render(n["r"], x=True)
+            sub_ok = add_ok = idx_ok = src_ok = False
+            for x, _ in walk_x(n["r"]):
+                if x.get("k") == "Binary" and x.get("op") == "Sub":
+                    r_ = deref_let(peel_casts(x["r"]))
+                    l_ = deref_let(peel_casts(x["l"]))
+                    if r_.get("k") == "Field" and r_.get("name") == "num_system_pos":
+                        sub_ok = True
+                        src_ok = peel_casts(l_).get("k") == "Field" and peel_casts(l_).get("name") == "pos_id"
+                if x.get("k") == "Binary" and x.get("op") == "Add":
+                    for side in (x["l"], x["r"]):
+                        s_ = deref_let(peel_casts(side))
+                        if s_.get("k") == "Index" and peel(s_["e"]).get("k") == "Field" and peel(s_["e"]).get("name") == "pos_offsets":
+                            add_ok = True
+                            i_ = deref_let(peel_casts(s_["i"]))
+                            idx_ok = i_.get("k") == "MethodCall" and i_.get("method") == "dic"
+            deps = shape = sub_ok and add_ok and src_ok
             pcs = path_conditions(n["id"], f.hir) or []
             at = [("" if p else "!") + render(a) for c, pol in pcs if isinstance(c, dict) for a, p in atoms(c, pol)]
             g1 = any("dict_id > 0" in a and not a.startswith("!") for a in at)
             g2 = any("pos_id >= self.num_system_pos" in a and not a.startswith("!") for a in at)
-            idx_ok = "pos_offsets[dict_id as usize]" in txt
             done = True
             ctx.ob("rebase|formula", deps and shape and g1 and g2 and idx_ok,
                    "pos_id := `%s` under %s (must be pos_id - num_system_pos + pos_offsets[dict_id], guarded by dict_id>0 and pos_id>=num_system_pos)" % (txt, at), fn=f, site=n.get("sp"))
@@ -153,12 +167,16 @@ def restamp(db, ctx):
     for n, ps in walk(f.hir):
         if n.get("k") == "Assign" and is_call(peel(n["r"]).get("scrut", {}).get("args", [{}])[0] if peel(n["r"]).get("k") == "Match" else {}):
             pass
+    from ..flow import reachable_at, is_local_from_call
     for c, ps in walk(f.hir):
         if is_call(c) and path_ends(callee(c), "WordId::checked"):
             a = [render(x) for x in call_args(c)]
             pcs = path_conditions(c["id"], f.hir) or []
             at = [("" if p else "!") + render(x) for cn, pol in pcs if isinstance(cn, dict) for x, p in atoms(cn, pol)]
-            ok = a[0] == "dict_id" and "word()" in a[1] and any("> 0" in x and not x.startswith("!") for x in at)
+            isv = is_local_from_call("WordId::dic")
+            # re-stamping happens exactly for stored dictionary numbers > 0: unreachable at 0, reachable at 1 and 14
+            r0, r1, r14 = (reachable_at(f.hir, c["id"], isv, v) for v in (0, 1, 14))
+            ok = a[0] == "dict_id" and "word()" in a[1] and r0 is False and r1 is True and r14 is True
             ctx.ob("update_dict_id|restamp", ok, "ids are rewritten as WordId::checked(%s) under %s (owner's number, only when the stored dic()>0)" % (", ".join(a), at), fn=f)
     callers = []
     g = db.one("get_word_info_subset", "LexiconSet")
